@@ -8,6 +8,7 @@
 #pragma once
 #include "util.hpp"
 #include <functional>
+#include <algorithm>
 #include <atomic>
 #include <signal.h>
 #include <unistd.h>
@@ -68,7 +69,7 @@ struct Ctx {
     void begin_sub(uint32_t sub, double cpu_budget_s) {
         soft_errors = 0; soft_report.clear();
         if(sh) { sh->sub = sub; sh->kind = DK_NONE; sh->note[0] = 0; sh->in_sub = 1; }
-        arm(cpu_budget_s * budget_scale);
+        arm(std::min(cpu_budget_s * budget_scale, cpu_budget_s + 240.0));   // replays run with scale 10: enough to tell a slow case from a hang, but never hours
     }
     void end_sub() {
         arm(0);
@@ -122,7 +123,11 @@ static void backtrace_to_note() {
     }
 }
 
+static volatile sig_atomic_t g_in_fatal = 0;
 static void on_fatal_signal(int sig) {
+    // re-entered (e.g. abort() from a corrupted heap while the backtrace is being taken): the first signal is already recorded, leave at once
+    if(g_in_fatal) _exit(96);
+    g_in_fatal = 1;
     Ctx::arm(0);
     if(g_ctx && g_ctx->sh) {
         if(g_ctx->sh->kind == DK_NONE) { g_ctx->sh->kind = DK_SIGNAL; g_ctx->sh->signo = sig; }
@@ -149,6 +154,7 @@ static void on_asan_report(const char *rep) {
 #endif
 
 static inline void install_handlers() {
+    { void *warm[2]; backtrace(warm, 2); }   // loads the unwinder now, so that the handlers need no allocation later
     struct sigaction sa; memset(&sa, 0, sizeof sa);
     sa.sa_handler = on_fatal_signal; sigemptyset(&sa.sa_mask); sa.sa_flags = SA_NODEFER;
     static char altstack[1 << 16];
